@@ -683,6 +683,12 @@ pub fn c05_body(case: &HCase, obs: &mut Obs) -> Result<(), String> {
     }
     // re-register everything once more, in reverse: nothing may change
     let before = snapshot(&reg);
+    obs.class(match before.len() {
+        0..=16 => "registry_size/up_to_16",
+        17..=32 => "registry_size/17_to_32",
+        33..=256 => "registry_size/33_to_256",
+        _ => "registry_size/over_256",
+    });
     for (t, (_, id)) in targets.iter().zip(all_roots.iter()).rev() {
         let again = reg.register_type(&meta_of(t)).id;
         if again != *id {
@@ -990,6 +996,50 @@ pub fn hcase(max_ops: usize) -> BoxedStrategy<HCase> {
         .boxed()
 }
 
+/// histories long enough for registries of several hundred distinct types (tables that change
+/// their behaviour with size: 16 / 32 / 256 entries)
+pub fn hcase_long() -> BoxedStrategy<HCase> {
+    (gen::graph(), any::<u64>(), 280usize..640, vec(any::<bool>(), 1..40), vec(any::<u16>(), 0..24))
+        .prop_map(|(spec, seed, n, mask, perm)| {
+            // n distinct (shape, node, delta) targets: the whole menu in an order fixed by `seed`
+            // (Fisher-Yates driven by a splitmix stream of the generated value, so the case is
+            // still a pure function of what proptest generated)
+            let mut all: Vec<Target> = vec![];
+            for shape in 0..N_SHAPES {
+                for j in 0..NN as u8 {
+                    for d in 0..3u8 {
+                        all.push(Target { shape, j, d });
+                    }
+                }
+            }
+            let mut x = seed;
+            let mut next = move || {
+                x = x.wrapping_add(0x9e37_79b9_7f4a_7c15);
+                let mut z = x;
+                z = (z ^ (z >> 30)).wrapping_mul(0xbf58_476d_1ce4_e5b9);
+                z = (z ^ (z >> 27)).wrapping_mul(0x94d0_49bb_1331_11eb);
+                z ^ (z >> 31)
+            };
+            for i in (1..all.len()).rev() {
+                let k = (next() % (i as u64 + 1)) as usize;
+                all.swap(i, k);
+            }
+            all.truncate(n);
+            let mut ops: Vec<HOp> = vec![];
+            let mut it = all.into_iter().peekable();
+            while it.peek().is_some() {
+                if next() % 5 == 0 {
+                    let k = 2 + (next() % 4) as usize;
+                    ops.push(HOp::RegisterTypes((&mut it).take(k).collect()));
+                } else {
+                    ops.push(HOp::Register(it.next().unwrap()));
+                }
+            }
+            HCase { spec, ops, mask, perm }
+        })
+        .boxed()
+}
+
 pub fn c01_subs() -> Vec<Box<dyn Sub>> {
     vec![
         Box::new(Check {
@@ -1000,6 +1050,15 @@ pub fn c01_subs() -> Vec<Box<dyn Sub>> {
             body: Box::new(c01_hist_body),
             guard_death: true,
             max_shrink: 4096,
+        }),
+        Box::new(Check {
+            name: "registry_long_histories",
+            quick: 320,
+            thorough: 1_600,
+            strat: Box::new(hcase_long),
+            body: Box::new(c01_hist_body),
+            guard_death: true,
+            max_shrink: 128,
         }),
         Box::new(Check {
             name: "builder_histories",
@@ -1057,27 +1116,49 @@ pub fn c02_subs() -> Vec<Box<dyn Sub>> {
 }
 
 pub fn c05_subs() -> Vec<Box<dyn Sub>> {
-    vec![Box::new(Check {
-        name: "one_entry_per_identity",
-        quick: 16_000,
-        thorough: 500_000,
-        strat: Box::new(|| hcase(16)),
-        body: Box::new(c05_body),
-        guard_death: false,
+    vec![
+        Box::new(Check {
+            name: "one_entry_per_identity",
+            quick: 16_000,
+            thorough: 500_000,
+            strat: Box::new(|| hcase(16)),
+            body: Box::new(c05_body),
+            guard_death: false,
             max_shrink: 4096,
-    })]
+        }),
+        Box::new(Check {
+            name: "one_entry_per_identity_long_histories",
+            quick: 320,
+            thorough: 1_600,
+            strat: Box::new(hcase_long),
+            body: Box::new(c05_body),
+            guard_death: false,
+            max_shrink: 128,
+        }),
+    ]
 }
 
 pub fn c11_subs() -> Vec<Box<dyn Sub>> {
-    vec![Box::new(Check {
-        name: "stable_reproducible",
-        quick: 10_000,
-        thorough: 300_000,
-        strat: Box::new(|| hcase(16)),
-        body: Box::new(c11_body),
-        guard_death: false,
+    vec![
+        Box::new(Check {
+            name: "stable_reproducible",
+            quick: 10_000,
+            thorough: 300_000,
+            strat: Box::new(|| hcase(16)),
+            body: Box::new(c11_body),
+            guard_death: false,
             max_shrink: 4096,
-    })]
+        }),
+        Box::new(Check {
+            name: "stable_reproducible_long_histories",
+            quick: 160,
+            thorough: 800,
+            strat: Box::new(hcase_long),
+            body: Box::new(c11_body),
+            guard_death: false,
+            max_shrink: 128,
+        }),
+    ]
 }
 
 pub fn c16_subs() -> Vec<Box<dyn Sub>> {
